@@ -40,11 +40,14 @@ pub fn replay(cases: &str, verdicts: &str) {
                     }, &x0, &[], budget).to_vec())
                 } else {
                     let (cw, at) = (f64s(&cfg["cw"]), f64s(&cfg["at"]));
+                    let hinge = cfg["hinge"].as_bool().unwrap_or(false);
                     let o = Adam::new(num(&cfg["alpha"]), num(&cfg["b1"]), num(&cfg["b2"]), num(&cfg["eps"]));
                     guard(|| o.optimize(|p: &[Var], _d: &[&[f64]]| {
                         evals.set(evals.get() + 1);
-                        let mut s = (p[0] - at[0]).abs() * cw[0];
-                        for i in 1..p.len() { s = s + (p[i] - at[i]).abs() * cw[i]; }
+                        // one-sided variant: c (|x - a| + (x - a)), gradient exactly zero to the left of a
+                        let term = |i: usize| if hinge { ((p[i] - at[i]).abs() + (p[i] - at[i])) * cw[i] } else { (p[i] - at[i]).abs() * cw[i] };
+                        let mut s = term(0);
+                        for i in 1..p.len() { s = s + term(i); }
                         s
                     }, &x0, &[], budget).to_vec())
                 }
@@ -52,7 +55,7 @@ pub fn replay(cases: &str, verdicts: &str) {
             let g = run();
             let n_evals = evals.get();
             let g2 = { evals.set(0); run() };
-            let class = format!("{}{} k{} {}", opt, if opt == "sgd" { format!(" {}{}", if num(&cfg["mu"]) == 0.0 { "plain" } else { "momentum" }, if cfg["nesterov"].as_bool().unwrap() { "+nesterov" } else { "" }) } else { format!(" eps{}", if num(&cfg["eps"]) == 0.0 { "=0" } else { ">0" }) },
+            let class = format!("{}{} k{} {}", opt, if opt == "sgd" { format!(" {}{}", if num(&cfg["mu"]) == 0.0 { "plain" } else { "momentum" }, if cfg["nesterov"].as_bool().unwrap() { "+nesterov" } else { "" }) } else { format!(" eps{}{}{}", if num(&cfg["eps"]) == 0.0 { "=0" } else { ">0" }, if cfg["hinge"].as_bool().unwrap_or(false) { " one-sided" } else { "" }, if c["zero_grad"].as_bool().unwrap_or(false) { " zero-gradient-step" } else { "" }) },
                                 if k == 0 { "=0" } else if k == 1 { "=1" } else { ">1" }, if budget == k { "budget=k" } else { "budget>k after convergence" });
             let ok = g.as_ref().map(|g| rel_close(g, &exp, 40)).unwrap_or(false);
             v.check(ok, "k-th iterate", &class, &json!({"case": c, "maxsteps": budget}), json!(g.as_ref().map(|g| fjs(g))));
@@ -135,10 +138,32 @@ pub fn record(seed: u64, nev: usize, out: &str) {
                 // linear one-parameter model: the least-squares slope is sum(xy)/sum(xx)
                 let ls_dev_log2 = if kind == "linear-short-window" { let s = x.iter().zip(&y).map(|(a, b)| a * b).sum::<f64>() / x.iter().map(|a| a * a).sum::<f64>();
                     let d = (th[0] - s).abs() / s.abs().max(1.0); if d == 0.0 { -1074 } else { d.log2().ceil() as i64 } } else { -1074 };
+                // covariance at the RETURNED point: (J^T J) C = s^2 I with J and s^2 = rss / (n - p) evaluated there; residual in
+                // units of eps (||J^T J|| ||C|| + s^2), the backward-error scale of an inverse (as for C01)
+                let cov_resid: i64 = if cv.nrows == p && cv.ncols == p && n > p && th.iter().all(|v| v.is_finite()) {
+                    let jac = |a: f64| -> Vec<f64> { match kind {
+                        "exponential" => vec![(th[1] * a).exp(), th[0] * a * (th[1] * a).exp()],
+                        "logistic" => { let sg = 1.0 / (1.0 + (-(th[1] * a + th[2])).exp()); vec![sg, th[0] * sg * (1.0 - sg) * a, th[0] * sg * (1.0 - sg)] }
+                        _ => vec![a] } };
+                    let mut jtj = vec![0.0; p * p];
+                    for a in x.iter() { let j = jac(*a); for u in 0..p { for w in 0..p { jtj[u * p + w] += j[u] * j[w]; } } }
+                    let s2 = r1 / (n - p) as f64;
+                    let (mut rmax, mut na, mut nc) = (0.0f64, 0.0f64, 0.0f64);
+                    for u in 0..p { for w in 0..p {
+                        let mut acc = 0.0; for k in 0..p { acc += jtj[u * p + k] * cv[[k, w]]; }
+                        rmax = rmax.max((acc - if u == w { s2 } else { 0.0 }).abs()); na = na.max(jtj[u * p + w].abs()); nc = nc.max(cv[[u, w]].abs());
+                    } }
+                    // when the fit is exact the residual sum of squares is itself rounding noise of size n (eps |y|)^2: floor
+                    let ymax = y.iter().fold(0.0f64, |m, v| m.max(v.abs()));
+                    let den = f64::EPSILON * (p as f64 * na * nc + s2) + 4.0 * n as f64 * (f64::EPSILON * ymax).powi(2) / (n - p) as f64
+                        // each residual y - f carries an absolute error eps |y|: rss is known to 2 sqrt(n rss) eps |y|
+                        + 4.0 * f64::EPSILON * ymax * (n as f64 * r1).sqrt() / (n - p) as f64;
+                    if den == 0.0 { if rmax == 0.0 { 0 } else { 1 << 30 } } else { (rmax / den).ceil().min(1e9) as i64 }
+                } else { -1 };
                 t.emit(json!({"kind": kind, "n": n, "p": p, "out": "ok", "finite": th.iter().all(|v| v.is_finite()), "increase_log2": ratio_log2, "rss_not_increased": r1 <= r0 * (1.0 + 1e-12),
-                              "cov_shape_ok": cv.nrows == p && cv.ncols == p, "ls_dev_log2": ls_dev_log2}));
+                              "cov_shape_ok": cv.nrows == p && cv.ncols == p, "ls_dev_log2": ls_dev_log2, "cov_resid": cov_resid, "noise": ns}));
             }
-            None => t.emit(json!({"kind": kind, "n": n, "p": p, "out": "panic", "finite": false, "increase_log2": 0, "rss_not_increased": false, "cov_shape_ok": false, "ls_dev_log2": 0})),
+            None => t.emit(json!({"kind": kind, "n": n, "p": p, "out": "panic", "finite": false, "increase_log2": 0, "rss_not_increased": false, "cov_shape_ok": false, "ls_dev_log2": 0, "cov_resid": -1, "noise": ns})),
         }
     }
     let _ = Value::Null;
